@@ -15,6 +15,7 @@ import typing as T
 
 from hypothesis import strategies as st
 
+from harness import c15corpus as c15_corpus
 from harness import projgen, refninja
 from harness.core import Ctx, Evidence, Failure, HarnessError, campaign, make_scratch, pmap, shard_seeds
 from harness.mesondrv import run_inproc, run_sub, write_tree
@@ -25,11 +26,20 @@ RULE = ('Hypothesis project models (profile intro: all target kinds, generated s
         'priority/is_parallel, and install rules (data, headers, man, subdir, installed targets, tags); after the real `meson setup` the intro files are '
         'compared with: build.ninja statements (filenames, compile inputs, compile parameters, all-membership), argv/env/suites really used by `meson test`, '
         'the tree really created by `meson install --destdir` (overall and per tag), get_option() messages, and the build files the generator wrote. '
-        'non-trivial = project with >=1 generated source or subproject and >=1 test and >=1 install rule; distinct by model hash.')
+        'non-trivial = project with >=1 generated source or subproject and >=1 test and >=1 install rule; distinct by model hash. '
+        'Corpus half (harness/c15corpus.py): projects of the repository\'s `test cases/{common,unit,native,linuxlike}` that configure here - a fixed '
+        'sample plus a seed-chosen sample in the quick tier, all of them in the thorough tier - with the model-free relations: intro-targets filenames '
+        '= outputs of the producing build.ninja statements, C/C++ sources = inputs of the compile statements of the private dir, compile parameters = ARGS; '
+        'intro-buildsystem_files (meson.build / option files) = the files the meson process really opened (audit hook); intro-tests cmd/env/workdir = what '
+        'recorder stand-ins of the built programs receive under `meson test`; test depends within the test-prereq closure; intro-installed = tree created by '
+        '`meson install --destdir`; all unchanged by a no-change reconfigure. non-trivial there = >=2 targets, a compared source block and a recorded test '
+        'or an installed entry.')
 ASSUMPTIONS = [
     'build.ninja is read by harness/refninja.py',
     'installed built targets are represented by placeholder files created by the harness at the paths build.ninja produces (nothing is compiled); `meson install --no-rebuild` copies them',
     'with unity builds the compile statements consume unity files: then only inclusion (not equality) of sources is asserted',
+    'corpus half: "read" means opened for reading by the meson process itself, outside shutil (a wrap overlay that is only copied is not read as a build definition)',
+    'corpus half: projects with install scripts / gnome / i18n helpers are not held to the install relation (their scripts create files no rule names)',
 ]
 
 DUMP_PY = r'''#!/usr/bin/env python3
@@ -503,10 +513,57 @@ def _shard(shard: T.Tuple[int, int], ev: Evidence, fails: T.List[Failure]) -> No
         shutil.rmtree(work, ignore_errors=True)
 
 
+# corpus projects that every quick run takes (each once reached a relation the generated projects do not: compile-only
+# targets, programs overridden by a subproject, failing optional subprojects, env.append(), install_subdir of nothing,
+# one source installed twice - the last two keep the recorded finding alive)
+CORPUS_FIXED = [
+    'test cases/common/259 preprocess', 'test cases/common/267 default_options in find_program', 'test cases/common/88 dep fallback',
+    'test cases/common/196 subproject with features', 'test cases/common/41 test args', 'test cases/common/59 install subdir',
+    'test cases/common/9 header install', 'test cases/common/45 custom install dirs', 'test cases/common/153 wrap file should not failed',
+    'test cases/common/105 generatorcustom', 'test cases/common/117 shared module', 'test cases/common/145 recursive linking',
+    'test cases/common/98 subproject subdir', 'test cases/common/8 install', 'test cases/common/186 test depends',
+    'test cases/common/13 pch',
+]
+
+
+def _corpus_shard(shard: T.List[str], ev: Evidence, fails: T.List[Failure]) -> None:
+    work = make_scratch('c15-corpus')
+    sigs: T.Set[str] = set()
+    try:
+        for pth in shard:
+            f = c15_corpus.check_corpus({'corpus': pth}, os.path.join(work, 'case'), ev)
+            if f is not None and f.sig not in sigs:
+                sigs.add(f.sig)
+                fails.append(f)
+    finally:
+        shutil.rmtree(work, ignore_errors=True)
+
+
+def _any_shard(shard: T.Tuple[str, T.Any], ev: Evidence, fails: T.List[Failure]) -> None:
+    if shard[0] == 'gen':
+        _shard(shard[1], ev, fails)
+    else:
+        _corpus_shard(shard[1], ev, fails)
+
+
 def run(ctx: Ctx) -> None:
+    import random
     per = ctx.n(7, 90)
-    pmap(ctx, _shard, [(s, per) for s in shard_seeds(ctx, 16)])
+    projs = c15_corpus.corpus_projects()
+    if ctx.quick:
+        fixed = [p for p in CORPUS_FIXED if p in projs]
+        rest = [p for p in projs if p not in fixed]
+        random.Random(f'c15-corpus:{ctx.seed}').shuffle(rest)
+        chosen = fixed + rest[:32]
+    else:
+        chosen = projs
+    ctx.ev.extra['corpus_projects_taken'] = len(chosen)
+    nsh = 16 if ctx.quick else 48
+    corpus = [('corpus', chosen[i::nsh]) for i in range(nsh) if chosen[i::nsh]]
+    pmap(ctx, _any_shard, [('gen', (s, per)) for s in shard_seeds(ctx, 16)] + corpus)
 
 
 def replay(ctx: Ctx, case: T.Any, doc: dict) -> T.Optional[Failure]:
+    if isinstance(case, dict) and 'corpus' in case:
+        return c15_corpus.check_corpus(case, os.path.join(ctx.scratch, 'replay'), None)
     return check_case(case, os.path.join(ctx.scratch, 'replay'), None, sub=True)
